@@ -13,7 +13,7 @@ func init() {
 		"(R1) the gRPC-code→HTTP-status decision table of toHTTPStatus equals the table in the property for every code, non-status errors give 500, the ErrorMapper is consulted first; "+
 		"(R2) every return of every (status, error) function of the front end (handlers and the functions that fetch a backend reply for them) is (200, nil) or (non-200, non-nil error) on all paths, and ServeHTTP rejects wrong methods / unparsable forms before calling the handler and converts (non-200, nil) into 500; "+
 		"(R3) for each endpoint and each cause named in the property (backend error, garbled root, tree too small, surplus or mis-indexed leaves, absent parts, bad proof hashes, undecodable leaf, parse failures) the control-flow edge taken on that cause can only reach returns of the prescribed status class with a non-nil error, and parse failures cannot reach a backend call; "+
-		"(R4) optional parts of backend replies are nil-guarded or read through nil-safe getters before use; (R5) no SCT is recorded on any fault edge of add-chain; (R6) SendHTTPError withholds the error text exactly when masking is on and the status is 500; checkAuditPath rejects wrong-sized hashes; (R7) a function without a status result that obtains an error from a backend RPC, or from a function on the way to one, hands on that very error value on every return that may execute once it is non-nil, so the gRPC status reaches toHTTPStatus. "+
+		"(R4) optional parts of backend replies are nil-guarded before every use that needs them present, whether the part is read by loading the field or through its nil-safe accessor (an accessor is recognised by what its body does, not by its name), and the absence of a part named in R3 is a cause of its own: when the part is read but no branch tests it for absence, the success return is reachable without it; (R5) no SCT is recorded on any fault edge of add-chain; (R6) SendHTTPError withholds the error text exactly when masking is on and the status is 500; checkAuditPath rejects wrong-sized hashes; (R7) a function without a status result that obtains an error from a backend RPC, or from a function on the way to one, hands on that very error value on every return that may execute once it is non-nil, so the gRPC status reaches toHTTPStatus. "+
 		"NOT covered: panics from causes other than absent optional message parts, behaviour of net/http and gRPC, the dynamic values of statuses produced by an injected ErrorMapper.",
 		runC08)
 }
